@@ -167,7 +167,14 @@ def r2_nonce(ctx):
         ev = Evaluator(corpus, depth=2)
         ev.run(m)
         aead = [e for e in ev.events if e.method == 'encrypt' and e.func is m and len(e.args) >= 2]
-        ctx.floor('C05.R2', f'AEAD encrypt call in {m.qual}', len(aead))
+        if not aead:
+            ctx.fail(
+                'C05.R2',
+                f'{func_label(m)}|fresh-random-nonce-per-call',
+                loc(m, m.node),
+                f'{m.qual}: no AEAD encrypt(nonce, data, ..) call is made by this function itself - the nonce is not visibly drawn per encryption '
+                '(e.g. it was moved into a memoised / shared helper): two ciphertexts under one key can share a nonce',
+            )
         for e in aead:
             nonce = e.args[0]
             ok = nonce[0] == 'call' and nonce[1] == ('name', 'os.urandom') and len(nonce[2]) == 1
@@ -243,7 +250,16 @@ def r4_log_channel(ctx):
     )
 
 
+def r5_config_from_backend(ctx):
+    from ..report import Relabel
+    from .c17 import r4_unlock_from_stored
+
+    # whether encryption is on is decided by the repository's own config object, never by another copy of it
+    r4_unlock_from_stored(Relabel(ctx, 'C05.R5'))
+
+
 def run(ctx):
+    r5_config_from_backend(ctx)
     r4_log_channel(ctx)
     r1_flows(ctx)
     r2_nonce(ctx)
